@@ -77,7 +77,16 @@ struct C18S : Scenario {
     if (fate->sig) { I(VKA_KILLSELF); I(fate->sig); } else { I(VKA_EXIT); I(fate->exitcode); }
     return a;
   }
+  int faults_hit = 0;
+  void alternatives(World &w, Proc &p, const Req &r, std::vector<Alt> &a) override {
+    if (w.ex->bound[BK_FAULT] <= 0 || p.vpid != mainpid) return;
+    // the spawner itself runs out of processes, pipes or descriptors for one command: that command is deferred, the following ones are served
+    if (r.op == VK_FORK) a.push_back({BK_FAULT, ALT_FAIL, EAGAIN});
+    if (r.op == VK_PIPE) a.push_back({BK_FAULT, ALT_FAIL, EMFILE});
+    if (r.op == VK_OPEN && std::string(r.data.c_str()).find_first_not_of("0123456789/") == std::string::npos) { a.push_back({BK_FAULT, ALT_FAIL, ENFILE}); a.push_back({BK_FAULT, ALT_FAIL, EIO}); }
+  }
   void after_step(World &w, Proc &p, const Step &st) override {
+    if (st.injected && st.err) faults_hit++;
     if (!p.standin.empty() && st.op == VK_READ && st.ret > 0 && st.data && st.a[0] == 0) child_in[p.vpid] += *st.data;
     if (p.vpid == mainpid && st.op == VK_OPEN) {
       const std::string &path = st.path; bool ok = path == "../lock/tcpto" || path == "/var/qmail/queue/lock/tcpto";
@@ -104,13 +113,15 @@ struct C18S : Scenario {
     { int want_children = 0; std::set<int> inuse; std::map<int, int> startedfor;
       for (size_t c = 0; c < complete; c++) { const Cmd &cm = (*cs)[c]; bool st = starts_child(cm) && !inuse.count(cm.delnum); if (st) { want_children++; inuse.insert(cm.delnum); } }
       // commands arriving in one read are processed back to back, so a repeated delivery number is "in use" (the oracle above assumes this; fate/ids/cut have no repeats)
-      if (children != want_children && fam != "multi") { w.soft_violation(key, casename + ": " + std::to_string(children) + " delivery programs were started, expected " + std::to_string(want_children)); return; }
+      if (faults_hit) { if (children > want_children) { w.soft_violation(key, casename + ": more delivery programs were started than there are acceptable commands"); return; } }
+      else if (children != want_children && fam != "multi") { w.soft_violation(key, casename + ": " + std::to_string(children) + " delivery programs were started, expected " + std::to_string(want_children)); return; }
       if (fam == "multi" && children > want_children) { w.soft_violation(key, casename + ": " + std::to_string(children) + " delivery programs were started, at most " + std::to_string(want_children) + " commands are acceptable"); return; }
       for (auto &in : child_stdin) { bool known = in == MSG123 || in == "numeric name directly in mess\n" || in == "long numeric name\n"; if (!known) { w.soft_violation(key + ":stdin", casename + ": a delivery program was given [" + esc(in, 60) + "] as its message"); return; } }
       w.counters["children_started"] += children; }
     // verdicts
     for (size_t c = 0; c < complete; c++) {
       const Cmd &cm = (*cs)[c]; if (fam == "multi") break;
+      if (faults_hit) { const std::string *t2 = nullptr; for (auto &r : reps) if (r.first == cm.delnum) t2 = &r.second; if (t2 && starts_child(cm) && (*t2)[0] == 'D') { w.soft_violation(key + ":permanent-on-resource-trouble", casename + ": the spawner ran out of a resource (injected) and reported a permanent failure [" + esc(*t2, 80) + "]"); return; } continue; }
       const std::string *txt = nullptr; for (auto &r : reps) if (r.first == cm.delnum) txt = &r.second;
       if (!txt) continue;
       char got = (*txt)[0], want;
